@@ -24,7 +24,7 @@ REQUIRED_CLASSES = ('layout:blocks', 'layout:alternating', 'layout:same-name-dif
                     'layout:same-name-size-different-atoms', 'layout:single-atom', 'layout:giant', 'layout:digit-names',
                     'layout:resid-wrap', 'layout:constant-name-increasing-number', 'vel:yes', 'vel:no', 'vel:some-atoms-at-rest', 'box:triclinic-lower', 'box:triclinic-general', 'values:full-width-numbers', 'atom-numbers:restarts', 'atom-numbers:arbitrary', 'atom-numbers:offset',
                     'op:index', 'op:negative-index', 'op:slice', 'op:slice-negative-step', 'op:next', 'op:out-of-range',
-                    'object:fresh-never-walked', 'object:walked-completely-before')
+                    'object:fresh-never-walked', 'object:walked-completely-before', 'object:view-of-a-system-with-topology')
 RULE = ('files: residue layout class x residue sizes 1..12 x 1..400 residues (thorough: up to 5000) x velocities; access '
         'histories of up to 200 operations. Non-trivial: at least 3 residues and at least 2 residue kinds or sizes. '
         'distinct = distinct (layout, velocities, residue-count bucket, history signature)')
@@ -239,7 +239,34 @@ def run_case(ctx, case):
     kinds = {(r[0][1], len(r)) for r in want}
     # 2. access history: on the object that was just iterated completely, or on a fresh object that has never been
     #    walked to the end (lazily built state of the object must not matter)
-    if i % 2:
+    if i % 4 == 3:
+        # the view that a System keeps of its coordinate file, after the System recognised a topology in it (the
+        # System's own bookkeeping of which residues are taken must not reach into the view)
+        del s
+        from gaddlemaps.components import System
+        try:
+            system = System(path)
+            s = system.system_gro
+        except Exception as exc:  # noqa
+            ctx.violation(f'systemgro-raises:{type(exc).__name__}:{layout}', str(exc)[:200], witness=w)
+            return
+        first = want[int(rng.integers(0, len(want)))]
+        itp = os.path.join(_tmp['dir'], f's{os.getpid()}.itp')
+        names = [r[2] for r in first]
+        gen.write_itp(itp, 'MOLX', gen.simple_itp_atoms(names, [first[0][1]] * len(names), [1] * len(names)),
+                      [('bonds', [(k, k + 1) for k in range(1, len(names))])])
+        try:
+            system.add_ftop(itp)
+            taken = len(system)
+            if taken:
+                system[0]
+                system[-1]
+            ctx.hit('object:view-of-a-system-with-topology' if taken else 'object:view-of-a-system')
+        except Exception as exc:  # noqa
+            ctx.count('system_topology_refused:' + type(exc).__name__)
+            ctx.hit('object:view-of-a-system')
+        w = dict(w, through='System(path).system_gro after add_ftop for residue kind %r' % (first[0][1],))
+    elif i % 2:
         del s
         try:
             s = SystemGro(path)
